@@ -23,7 +23,7 @@ bytes payload(int dir, size_t n) { bytes s(n, 0); for (size_t i = 0; i < n; ++i)
 
 enum Cmd { CONNECT = 1, BIND = 2, UDPA = 3 };
 enum Tgt { T_OK, T_REFUSE, T_NX };
-struct Neg { int ver; int cmd; int name_len; /*0 = by IPv4 address*/ int tgt; };
+struct Neg { int ver; int cmd; int name_len; /*0 = by IPv4 address*/ int tgt; int announce = 0; /* UDP ASSOCIATE: the endpoint the client says it will send from: 0 = 0.0.0.0:0, 1 = 0.0.0.0:<its UDP port> (address unknown), 2 = its real address and port */ };
 
 std::string name_of_len(int n) { if (n == 1) return "t"; if (n == 3) return "abc"; if (n == 4) return "abcd"; std::string s(size_t(n), 'x'); s[0] = 'L'; return s; }
 
@@ -35,9 +35,9 @@ std::vector<bytes> neg_msgs(Neg const& n)
 	if (n.ver == 5) m.push_back(B({ 5, 1, 0 }));
 	if (n.ver == 4) { bytes r = B({ 4, n.cmd, port >> 8, port & 0xff }); r += n.cmd == BIND ? B({ 10, 0, 2, 1 }) : B({ 10, 0, 1, 1 }); r += char(0); m.push_back(r); return m; }
 	bytes r = B({ 5, n.cmd, 0 });
-	if (n.name_len == 0) { r += char(1); r += n.cmd == BIND ? B({ 10, 0, 2, 1 }) : (n.cmd == UDPA ? B({ 0, 0, 0, 0 }) : B({ 10, 0, 1, 1 })); }
+	if (n.name_len == 0) { r += char(1); r += n.cmd == BIND ? B({ 10, 0, 2, 1 }) : (n.cmd == UDPA ? (n.announce == 2 ? B({ 10, 0, 0, 1 }) : B({ 0, 0, 0, 0 })) : B({ 10, 0, 1, 1 })); }
 	else { std::string nm = n.tgt == T_NX ? std::string("nx.test") : name_of_len(n.name_len); r += char(3); r += char(nm.size()); r += nm; }
-	if (n.cmd == UDPA) r += B({ 0, 0 }); else r += B({ port >> 8, port & 0xff });
+	if (n.cmd == UDPA) r += n.announce ? B({ 4700 >> 8, 4700 & 0xff }) : B({ 0, 0 }); else r += B({ port >> 8, port & 0xff });
 	m.push_back(r);
 	return m;
 }
@@ -246,8 +246,8 @@ struct SocksEngine : Engine
 		negs.clear();
 		for (int v : { 4, 5 }) { negs.push_back(Neg{ v, CONNECT, 0, T_OK }); negs.push_back(Neg{ v, CONNECT, 0, T_REFUSE }); negs.push_back(Neg{ v, BIND, 0, T_OK }); }
 		for (int l : { 4, 255, 3, 1 }) negs.push_back(Neg{ 5, CONNECT, l, T_OK });
-		negs.push_back(Neg{ 5, CONNECT, 7, T_NX }); negs.push_back(Neg{ 5, UDPA, 0, T_OK });
-		bases = { Neg{ 4, CONNECT, 0, T_OK }, Neg{ 5, CONNECT, 0, T_OK }, Neg{ 5, CONNECT, 4, T_OK }, Neg{ 5, BIND, 0, T_OK }, Neg{ 5, UDPA, 0, T_OK }, Neg{ 4, BIND, 0, T_OK } };
+		negs.push_back(Neg{ 5, CONNECT, 7, T_NX }); negs.push_back(Neg{ 5, UDPA, 0, T_OK }); negs.push_back(Neg{ 5, UDPA, 0, T_OK, 1 }); negs.push_back(Neg{ 5, UDPA, 0, T_OK, 2 });
+		bases = { Neg{ 4, CONNECT, 0, T_OK }, Neg{ 5, CONNECT, 0, T_OK }, Neg{ 5, CONNECT, 4, T_OK }, Neg{ 5, BIND, 0, T_OK }, Neg{ 5, UDPA, 0, T_OK }, Neg{ 4, BIND, 0, T_OK }, Neg{ 5, UDPA, 0, T_OK, 1 }, Neg{ 5, UDPA, 0, T_OK, 2 } };
 		return negs.size() + bases.size() * 4 + 1;
 	}
 	void one(Ctx& ctx, uint64_t u, Scn const& s, std::string const& fam)
